@@ -414,6 +414,11 @@ class CFGrid1D(CFGrid[CFGrid1DTopology]):
         if len(latitude.dims) != 1 or len(longitude.dims) != 1:
             return None
 
+        # Latitude and longitude along one and the same dimension
+        # describe a list of locations, such as stations, not a grid
+        if latitude.dims == longitude.dims:
+            return None
+
         return Specificity.LOW
 
     def _make_polygons(self) -> numpy.ndarray:
